@@ -164,6 +164,159 @@ def pass2_two_captions(c):
         c.ensure("printed_times_non_decreasing", True)
 
 
+class OutLog:
+    """the text being written in PASS 3, abstracted to the sequence of timecodes printed so far:
+    how many, the last one, and whether all were non-negative and non-decreasing (within `tol`)"""
+    TOL = Fraction(1, 100)
+
+    def __init__(self, count, last, ok):
+        self.count, self.last, self.ok = count, last, ok
+
+    @staticmethod
+    def of(x):
+        if isinstance(x, OutLog):
+            return x
+        if isinstance(x, str):
+            return OutLog(z3.IntVal(0), z3.RealVal(0), z3.BoolVal(True))
+        raise TypeError(type(x).__name__)
+
+    def __add__(self, piece):
+        out = self
+        atoms = piece.atoms if isinstance(piece, SStr) else []
+        for a in atoms:
+            if isinstance(a, Opaque) and a.tag == "ts":
+                from pyvc.sym import zreal
+                t = zreal(a.payload)
+                tol = z3.RealVal(str(OutLog.TOL))
+                ok = z3.And(out.ok, t >= 0, z3.Or(out.count == 0, out.last <= t + tol))
+                out = OutLog(out.count + 1, t, ok)
+        return out
+
+
+def pass23_any_number(c):
+    """PASS 2 + PASS 3 of SCCWriter.write for ANY number of captions (loop invariants; the list of
+    (code, start, end) tuples is a record list with index stores): for every caption k the codes start
+    (words_k + 8) frames before its start; the stand-alone erase line of caption k is kept iff it
+    precedes the next caption's line by more than three frames, the last one always; every printed
+    timecode is non-negative and they never decrease."""
+    from pyvc import heap
+    from pyvc.heap import SymRecordList, loop_rule, INT, REAL, BOOL
+    from pyvc.sym import zreal, zint
+    heap.install(c.interp)
+    p = cur()
+    F = z3.RealVal(str(FRAME))
+    tol = z3.RealVal(str(OutLog.TOL))
+    n = z3.Int("n")
+    p.assume(n >= 1)
+    W = z3.Const("words", z3.ArraySort(INT, INT))
+    S_in, E_in = z3.Const("S", z3.ArraySort(INT, REAL)), z3.Const("E", z3.ArraySort(INT, REAL))
+    K1, K2 = z3.Int("K1"), z3.Int("K2")
+    p.assume(K2 == K1 + 1)
+
+    def tgt(k):
+        return S_in[k] - (W[k] + 8) * F
+
+    def pre(k):
+        """the statement's domain at index k: sorted, non-overlapping cues, spaced far enough apart to be
+        transmitted one code word per frame"""
+        return z3.Implies(z3.And(k >= 0, k < n), z3.And(
+            W[k] >= 2, W[k] <= 400, S_in[k] >= 0, S_in[k] <= E_in[k], E_in[k] <= 10 ** 10,
+            z3.Implies(k + 1 < n, z3.And(E_in[k] <= S_in[k + 1], tgt(k + 1) >= S_in[k] + F)),
+            z3.Implies(k == 0, tgt(0) >= 0)))
+
+    arrays = {"id": z3.Const("id0", z3.ArraySort(INT, INT)), "len": z3.Const("len0", z3.ArraySort(INT, INT)),
+              "start": S_in, "end": E_in, "end_none": z3.K(INT, z3.BoolVal(False))}
+    sorts = {"id": INT, "len": INT, "start": REAL, "end": REAL, "end_none": BOOL}
+
+    def read(arr, k):
+        code = SStr([Opaque("code", arr["id"][k], HEX + " ", lo=10, length=arr["len"][k])])
+        end = None if cur().branch(arr["end_none"][k]) else SNum(arr["end"][k], "float")
+        return (code, SNum(arr["start"][k], "float"), end)
+
+    def write(arr, k, v):
+        code, start, end = v
+        atoms = code.atoms if isinstance(code, SStr) else None
+        if not atoms or len(atoms) != 1 or not isinstance(atoms[0], Opaque) or atoms[0].tag != "code":
+            from pyvc.sym import Inapplicable
+            raise Inapplicable("a code string that is not one of the codes computed in PASS 1")
+        out = dict(arr)
+        out["id"] = z3.Store(arr["id"], k, atoms[0].payload)
+        out["len"] = z3.Store(arr["len"], k, atoms[0].length)
+        out["start"] = z3.Store(arr["start"], k, zreal(start))
+        if end is None:
+            out["end_none"] = z3.Store(arr["end_none"], k, True)
+        else:
+            out["end"] = z3.Store(arr["end"], k, zreal(end))
+            out["end_none"] = z3.Store(arr["end_none"], k, False)
+        return out
+
+    codes = SymRecordList(n, arrays, read, write, sorts)
+    ident = lambda k: z3.Implies(z3.And(k >= 0, k < n), z3.And(arrays["id"][k] == k, arrays["len"][k] == 5 * W[k]))
+    for k in (K1, K2, K2 + 1, z3.IntVal(0)):
+        p.assume(pre(k))
+        p.assume(ident(k))
+
+    def inst(arr, i, k):
+        """the PASS-2 invariant at list index k when the loop is at index i"""
+        A = arr
+        return z3.Implies(z3.And(k >= 0, k < n), z3.And(
+            A["id"][k] == k, A["len"][k] == 5 * W[k], A["start"][k] >= 0,
+            z3.Implies(k >= i, z3.And(A["start"][k] == S_in[k], A["end"][k] == E_in[k], z3.Not(A["end_none"][k]))),
+            z3.Implies(k < i, z3.And(A["start"][k] - tgt(k) <= tol, tgt(k) - A["start"][k] <= tol)),
+            z3.Implies(k == i - 1, z3.And(z3.Not(A["end_none"][k]), A["end"][k] == E_in[k])),
+            z3.Implies(k < i - 1, z3.And(
+                z3.Implies(z3.Not(A["end_none"][k]), z3.And(A["end"][k] == E_in[k], E_in[k] + 3 * F < A["start"][k + 1] + tol)),
+                z3.Implies(A["end_none"][k], E_in[k] + 3 * F >= A["start"][k + 1] - tol)))))
+
+    def inv2(S):
+        if S.havoc_locals is not None and not S.i_is_successor:
+            # the invariant is  forall k. inst(k): instances at the indices this iteration touches
+            for k in (S.i - 1, S.i, S.i + 1):
+                S.p.assume(inst(codes.arrays, S.i, k))
+                S.p.assume(pre(k))
+                S.p.assume(ident(k))
+        return [("caption_K1", inst(codes.arrays, S.i, K1)), ("caption_K2", inst(codes.arrays, S.i, K2))]
+    skip = {v: ("skip", None) for v in ("code_words", "code_time_microseconds", "code_start", "previous_code", "previous_start",
+                                        "previous_end", "index", "code", "start", "end")}
+    c.interp.loop_hooks[("pycaption.scc:SCCWriter.write", 1)] = loop_rule(
+        "pass2", inv2, locals_=dict(skip, codes=("custom", lambda p_, v: codes.havoc(p_, "codes"))))
+
+    def inv3(S):
+        if S.havoc_locals is not None and not S.i_is_successor:
+            S.p.assume(K1 == S.i)            # specialise the arbitrary caption of PASS 2 to the one being written
+        out = OutLog.of(S.local("output"))
+        A = codes.arrays
+        return [("printed_times_ordered_so_far", z3.And(out.ok, out.count >= 0, (out.count == 0) == (S.i == 0),
+                                                        z3.Implies(z3.And(S.i < n, out.count > 0), out.last <= A["start"][S.i] + tol)))]
+
+    def havoc_out(p_, v):
+        return OutLog(p_.fresh_int("count"), p_.fresh_real("last"), p_.fresh_bool("ok"))
+    c.interp.loop_hooks[("pycaption.scc:SCCWriter.write", 2)] = loop_rule(
+        "pass3", inv3, locals_={"output": ("custom", havoc_out), "code": ("skip", None), "start": ("skip", None), "end": ("skip", None)})
+
+    def h_ts(interp, fn, args, kw):
+        return SStr([Opaque("ts", args[0], "0123456789:", lo=11)])
+    c.interp.contracts["pycaption.scc:SCCWriter._format_timestamp"] = h_ts
+    loc = c.run_region(SCCWriter.write,
+                       first=lambda st: isinstance(st, ast.For) and isinstance(st.iter, ast.Call) and getattr(st.iter.func, "id", "") == "enumerate",
+                       last=lambda st: isinstance(st, ast.For) and isinstance(st.target, ast.Tuple) and len(st.target.elts) == 3,
+                       locals_={"self": c.new(SCCWriter), "codes": codes, "output": ""})
+    out = OutLog.of(loc["output"])
+    A = codes.arrays
+    valid = z3.And(K1 >= 0, K1 < n)
+    c.ensure("printed_times_non_negative_and_non_decreasing", out.ok)
+    c.ensure("codes_start_words_plus_8_frames_early", z3.Implies(valid, z3.And(A["start"][K1] - tgt(K1) <= tol, tgt(K1) - A["start"][K1] <= tol)))
+    c.ensure("visible_two_frames_before_the_start",
+             z3.Implies(valid, z3.And(A["start"][K1] + (W[K1] + 6) * F <= S_in[K1] - 2 * F + tol,
+                                      A["start"][K1] + (W[K1] + 6) * F >= S_in[K1] - 2 * F - tol)))
+    c.ensure("erase_line_kept_only_if_it_precedes_the_next_line_by_more_than_3_frames",
+             z3.Implies(z3.And(valid, K1 < n - 1), z3.And(
+                 z3.Implies(z3.Not(A["end_none"][K1]), z3.And(A["end"][K1] == E_in[K1], E_in[K1] + 3 * F < A["start"][K2] + tol)),
+                 z3.Implies(A["end_none"][K1], E_in[K1] + 3 * F >= A["start"][K2] - tol))))
+    c.ensure("last_caption_end_kept", z3.Implies(z3.And(valid, K1 == n - 1), z3.And(z3.Not(A["end_none"][K1]), A["end"][K1] == E_in[K1])))
+    c.ensure("every_code_stays_with_its_caption", z3.Implies(valid, A["id"][K1] == K1))
+
+
 # ------------------------------------------------------------------------------------ bounded part
 
 WORDS = ["a", "I", "to", "the", "over", "lazy", "quick", "jumps", "captions", "extraordinary", "W" * 33, "x" * 40,
@@ -307,6 +460,8 @@ def run(ctx):
     P("scc.SCCWriter._maybe_space", maybe_space, functions=[SCCWriter._maybe_space])
     P("scc.SCCWriter._print_character", print_character, functions=[SCCWriter._print_character])
     P("scc.SCCWriter.write[PASS 2-3, 2 captions]", pass2_two_captions, functions=[SCCWriter.write], crosscheck=False)
+    P("scc.SCCWriter.write[PASS 2-3, any number of captions]", pass23_any_number, functions=[SCCWriter.write], crosscheck=False,
+      path_solver={"relevancy": 0})      # (feasibility pruning only: mixed Int/Real arrays are slow with relevancy on)
     ctx.bounded("round_trip", "caption sets over the basic character table (plus a few special / extended ones): 1-3 "
                 "captions of 1-4 lines of up to 80 characters, words up to 40 letters, spacings from just-feasible "
                 "to sparse: header, line grammar, parity of every byte, rows 1-15, non-decreasing timecodes, rows <= 32 "
@@ -314,6 +469,8 @@ def run(ctx):
                 "and pycaption's own reader returns the same words", lambda b: bounded(ctx, b))
     ctx.trust("P-ground over the code tables (every entry); A: textwrap.fill(x, 32) (rows <= 32 columns, breaks at "
               "spaces, long words split) - exercised by the bounded part; str lengths of opaque code strings are "
-              "symbolic integers; PASS 2-3 proved for a list of two captions (unrolled), longer lists bounded")
+              "symbolic integers; PASS 2-3 proved for ANY number of captions (record list with index stores, loop invariants "
+              "instantiated at the indices an iteration touches and proved at two arbitrary adjacent indices K1, K1+1; "
+              "PASS 3's text abstracted to the sequence of printed timecodes) and additionally for two captions unrolled")
     ctx.assume("floats under the standard model; domain as the statement says: cues spaced far enough apart to be "
                "transmitted one code word per frame (first transmission time not below zero)")
